@@ -220,6 +220,22 @@ def check(run):
         cs = []
         specs = [rand_shell(rng, l, cs, nprim=rng.randint(1, 2), nseg=1, sph=False, exp_lo=0.1, exp_hi=10.0) for l in ls]
         quartet_orientation_case(run, specs)
+    # a tight p / d shell about one bohr from a much more diffuse partner (the product centre of the pair lies within 1e-5 of the
+    # tight shell's centre), near the coordinate origin and 15-20 bohr from it; a pair whose centres share one coordinate to 3e-8
+    for n_, far in enumerate((False, True)):
+        o = np.array([12.0, -9.0, 11.0]) if far else np.zeros(3)
+        at = lambda v: [float(x) for x in o + np.array(v)]
+        tight = ShellSpec(1 + n_ % 2, at([0.1, 0.2, -0.1]), [1.5e3 if far else 2.0e4], [1.0])
+        diffuse = ShellSpec(n_ % 2, at([0.9, -0.5, 0.7]), [0.1], [1.0])
+        m1 = ShellSpec(1, at([-0.4, 0.6, 0.3]), [0.8], [1.0])
+        m2 = ShellSpec(0, at([0.5, 0.5, -0.6]), [1.2], [1.0])
+        for q in ([tight, diffuse, m1, m2], [m1, m2, diffuse, tight]) if quick else ([tight, diffuse, m1, m2], [m1, m2, diffuse, tight], [m1, tight, diffuse, m2]):
+            quartet_orientation_case(run, q, "tight next to diffuse" + (", far from the origin" if far else ""))
+    a_ = ShellSpec(1, [0.3, -0.2, 0.5], [1.3], [1.0])
+    b_ = ShellSpec(1, [0.3 + 3e-8, 0.7, -0.4], [0.9], [1.0])
+    c_ = ShellSpec(0, [-0.6, 0.1, 0.2], [0.7], [1.0])
+    quartet_orientation_case(run, [a_, b_, c_, a_.copy(l=0)], "centres sharing one coordinate to 3e-8")
+    quartet_orientation_case(run, [c_, b_, a_, b_.copy(l=0)], "centres sharing one coordinate to 3e-8")
     from checks.common import mixed_tight_diffuse_quartets
     for tag, q in mixed_tight_diffuse_quartets(full=not quick)[1:: (2 if quick else 1)]:
         quartet_orientation_case(run, q, "tight/diffuse/moderate " + tag)
